@@ -1,0 +1,83 @@
+//go:build verif
+
+package fstxn
+
+// Verification hooks: a harness-settable observer that sees the life of
+// every transaction (begin, lock acquisition and release, inode
+// allocation, commit, abort).  Set VerifObs before any server is
+// started and do not change it while servers run.
+
+type VerifObserver interface {
+	Begin(op *FsTxn)
+	// Acquire is called before the lock is requested, Acquired after it is held.
+	Acquire(op *FsTxn, inum uint64)
+	Acquired(op *FsTxn, inum uint64)
+	Release(op *FsTxn, inum uint64)
+	Alloc(op *FsTxn, inum uint64)
+	// Commit is called before the transaction is handed to the journal,
+	// Committed after the journal has answered.
+	Commit(op *FsTxn, wait bool)
+	Committed(op *FsTxn, ok bool)
+	// Abort is called before anything is undone; dirty is the number of
+	// dirty buffers in the aborted transaction.
+	Abort(op *FsTxn, dirty uint64)
+}
+
+var VerifObs VerifObserver
+
+func verifBegin(op *FsTxn) {
+	if VerifObs != nil {
+		VerifObs.Begin(op)
+	}
+}
+
+func verifAcquire(op *FsTxn, inum uint64) {
+	if VerifObs != nil {
+		VerifObs.Acquire(op, inum)
+	}
+}
+
+func verifAcquired(op *FsTxn, inum uint64) {
+	if VerifObs != nil {
+		VerifObs.Acquired(op, inum)
+	}
+}
+
+func verifRelease(op *FsTxn, inum uint64) {
+	if VerifObs != nil {
+		VerifObs.Release(op, inum)
+	}
+}
+
+func verifAlloc(op *FsTxn, inum uint64) {
+	if VerifObs != nil {
+		VerifObs.Alloc(op, inum)
+	}
+}
+
+func verifCommit(op *FsTxn, wait bool) {
+	if VerifObs != nil {
+		VerifObs.Commit(op, wait)
+	}
+}
+
+func verifCommitted(op *FsTxn, ok bool) {
+	if VerifObs != nil {
+		VerifObs.Committed(op, ok)
+	}
+}
+
+func verifAbort(op *FsTxn) {
+	if VerifObs != nil {
+		VerifObs.Abort(op, op.Atxn.Op.NDirty())
+	}
+}
+
+// VerifHeld returns the inode numbers the transaction holds locked.
+func (op *FsTxn) VerifHeld() []uint64 {
+	var held []uint64
+	for inum := range op.inodes {
+		held = append(held, inum)
+	}
+	return held
+}
